@@ -368,7 +368,11 @@ def limit():
 def run(cmd, timeout, cwd=None):
     t = time.time()
     try:
-        p = subprocess.run(cmd, capture_output=True, timeout=timeout, cwd=cwd, preexec_fn=limit)
+        # temporary files of cbmc (the CNF handed to the external SAT solver: hundreds of MB, left behind when a run is killed) go
+        # into the proof's own scratch directory, which is removed with the session
+        env = dict(os.environ); 
+        if cwd: env['TMPDIR'] = os.path.abspath(cwd)
+        p = subprocess.run(cmd, capture_output=True, timeout=timeout, cwd=cwd, preexec_fn=limit, env=env)
         return p.returncode, p.stdout.decode('utf-8', 'replace'), p.stderr.decode('utf-8', 'replace'), time.time() - t
     except subprocess.TimeoutExpired as ex:
         return -9, (ex.stdout or b'').decode(errors='replace') if isinstance(ex.stdout, bytes) else (ex.stdout or ''), 'TIMEOUT', time.time() - t
@@ -387,7 +391,7 @@ def run_portfolio(cur, backends, tail, timeout, cwd):
     procs = []
     for b in backends:
         out = open(os.path.join(cwd, 'out_%s.json' % b), 'w')
-        p = subprocess.Popen(['cbmc', cur] + backend_flags(b) + tail, stdout=out, stderr=subprocess.DEVNULL, cwd=cwd, preexec_fn=limit_pg)
+        p = subprocess.Popen(['cbmc', cur] + backend_flags(b) + tail, stdout=out, stderr=subprocess.DEVNULL, cwd=cwd, preexec_fn=limit_pg, env=dict(os.environ, TMPDIR=os.path.abspath(cwd)))
         procs.append((b, p, out))
     winner = None; last = (-9, '', 'TIMEOUT', backends[0])
     while time.time() - t0 < timeout and winner is None:
